@@ -146,6 +146,7 @@ type Trace struct {
 	Event  func(kind string, n int, err error) // kinds: lock-ok lock-fail unlock page close reserved
 	FailAt int                                 // optional: k-th page read returns an error (after the real read)
 	Reads  int
+	Fired  bool
 }
 
 var _ sdb.VerifPager = (*Trace)(nil)
@@ -156,6 +157,7 @@ func (t *Trace) Page(n int, pagesize int) ([]byte, error) {
 	if t.FailAt > 0 && t.Reads == t.FailAt {
 		err = ErrInjected
 		b = nil
+		t.Fired = true
 	}
 	if t.Event != nil {
 		t.Event("page", n, err)
